@@ -238,14 +238,15 @@ func (x *Exec) rangeCall(st *State, m Term, kt, vt types.Type, fval Val, k func(
 	}
 	lname := "loop" + key
 	emptyVisited := Term{"((as const (Array Int Bool)) false)", ArrSort(SI, SB)}
-	evalInv := func(st *State, inv *Clause, visited Term) Term {
+	evalInv := func(st *State, inv *Clause, visited Term, pol int) Term {
 		e := x.envFor(st, st.top(), c)
 		e.locals = true
 		e.vars["visited"] = TV{visited, nil}
+		e.pol = pol
 		return x.safeBool(e, inv)
 	}
 	for i, inv := range spec.Invariants {
-		x.oblige(st, lname+".entry"+invLabel(inv, i), nil, evalInv(st, inv, emptyVisited), "Range invariant on entry: "+inv.Src)
+		x.oblige(st, lname+".entry"+invLabel(inv, i), nil, evalInv(st, inv, emptyVisited, 1), "Range invariant on entry: "+inv.Src)
 	}
 	// havoc cells written by the closure body and declared heap locations
 	x.havocClosureWrites(st, clo)
@@ -256,7 +257,7 @@ func (x *Exec) rangeCall(st *State, m Term, kt, vt types.Type, fval Val, k func(
 	q := Term{fmt.Sprintf("q.k!%d", x.counter), SI}
 	st.assume(Forall([]Term{q}, Imp(Sel(visited, q), Sel(has, q))))
 	for _, inv := range spec.Invariants {
-		st.assume(evalInv(st, inv, visited))
+		st.assume(evalInv(st, inv, visited, -1))
 	}
 	base := st.snapshot()
 	baseWM := st.wmNow()
@@ -281,7 +282,7 @@ func (x *Exec) rangeCall(st *State, m Term, kt, vt types.Type, fval Val, k func(
 			st2.assume(cont)
 			nv := Sto(visited, kk, TTrue)
 			for i, inv := range spec.Invariants {
-				x.oblige(st2, lname+".preserved"+invLabel(inv, i), nil, evalInv(st2, inv, nv), "Range invariant preserved: "+inv.Src)
+				x.oblige(st2, lname+".preserved"+invLabel(inv, i), nil, evalInv(st2, inv, nv, 1), "Range invariant preserved: "+inv.Src)
 			}
 			x.frameCheck(st2, st2.top(), base, baseWM, spec.Modifies, base, lname+".frame")
 		}
